@@ -89,13 +89,19 @@ def dist_values(sigs, tier, rnd):
                 combos = rnd.sample(combos, 40 if tier == "quick" else 400)
             for c in combos:
                 out[kind].append("%s(%s)" % (sig["name"], ", ".join(c)))
+    # weight tables whose running sums overflow, vanish or are zero (the constructor sums natively)
+    for w in ("[(1, 1e308), (2, 1e308), (3, 1e308)]", "[(1, 1.7976931348623157e308), (2, 1.7976931348623157e308)]", "[(1, 5e-324), (2, 5e-324)]",
+              "[(1, 0.0), (2, 0.0)]", "[(1, 1.0), (2, 1e308)]", "[(1, 1e-320), (2, 1.0), (3, 1e308), (4, 1e308)]"):
+        out["DiscreteDistribution"].append("custom_distribution(%s)" % w)
     return out
 
 
 def literal_cases():
     lits = ["1e308", "1.7976931348623157e308", "1.7976931348623159e308", "1e309", "1e999", "1E999", "0.1e400", "1e-999", "5e-324", "1e-400",
             "123456789012345678901234567890123456789012345678901234567890e300", "1" + "0" * 400 + ".0", "1" + "0" * 308 + ".0", "1" + "0" * 309 + ".5",
-            "1_0e3_0_8", "1_0e3_0_9", "0.0e999", "9" * 400 + "e-100", "179769313486231580793728971405303415079934132710037826936173778980444968292764750946649017977587207096330286416692887910946555547851940402630657488671505820681908902000708383676273854845817711531764475730270069855571366959622842914819860834936475292719074168444365510704342711559699508093042880177904174667898.0"]
+            "1_0e3_0_8", "1_0e3_0_9", "0.0e999",
+            # whole decimal literals beyond the integer literal range are read as floats: they must be finite too
+            "2" + "0" * 308, "1" + "0" * 309, "9" * 400, "17976931348623157" + "0" * 292, "17976931348623159" + "0" * 292, "1" + "0" * 45, "1_" + "0" * 320, "9" * 400 + "e-100", "179769313486231580793728971405303415079934132710037826936173778980444968292764750946649017977587207096330286416692887910946555547851940402630657488671505820681908902000708383676273854845817711531764475730270069855571366959622842914819860834936475292719074168444365510704342711559699508093042880177904174667898.0"]
     out = []
     for i, x in enumerate(lits):
         out.append(("literal " + x[:40], "let v = %s;\n" % x))
